@@ -48,6 +48,11 @@ func c20Exec(c *fw.Ctx, hist []string) bool {
 	c.Transition(len(hist))
 	dir := filepath.Join(c.Scratch, fmt.Sprintf("c20-%d", atomic.AddInt64(&bedSeq, 1)))
 	defer os.RemoveAll(dir)
+	if len(hist) > 0 && strings.HasPrefix(hist[0], "dir:") {
+		// the storage directory has a special name (hc names it after the accessory by default)
+		os.MkdirAll(dir, 0755)
+		dir = filepath.Join(dir, strings.TrimPrefix(hist[0], "dir:"))
+	}
 	failed := false
 	fail := func(sig, desc string) {
 		failed = true
@@ -126,6 +131,8 @@ func c20Exec(c *fw.Ctx, hist []string) bool {
 	}
 	for i, ev := range hist {
 		switch {
+		case strings.HasPrefix(ev, "dir:"):
+			continue
 		case strings.HasPrefix(ev, "restart:"):
 			variant := strings.TrimPrefix(ev, "restart:")
 			pin := ""
@@ -452,6 +459,17 @@ func c20Histories(c *fw.Ctx) {
 		}
 	}
 	rec(nil)
+	// storage directories whose names mean something to pattern matching: every history of length 2 over four symbols
+	for _, dn := range []string{"Lamp [1]", "Bridge [attic", "a*b?"} {
+		for _, e1 := range []string{"restart:same", "pair", "remove-pairing", "restart:plus-outlet"} {
+			for _, e2 := range []string{"restart:same", "pair", "remove-pairing", "restart:plus-outlet"} {
+				idx++
+				if idx%hs == c.Shard%hs {
+					mine = append(mine, []string{"dir:" + dn, e1, e2})
+				}
+			}
+		}
+	}
 	if len(mine) > 1 {
 		c.Sample(mine[0])
 		c.Sample(mine[len(mine)/2])
@@ -483,7 +501,7 @@ func init() {
 	fw.Register(&fw.Check{
 		ID:    "C20",
 		Level: "model_checking",
-		Rule:  "(a) every history of length 3 (quick) / 4 (thorough) after an initial start over {restart with the same accessories, restart with changed values only, restart with an added accessory, restart with another setup code, real pair-setup of a new controller, remove a pairing, add a new pairing and add an existing pairing again through /pairings on a verified connection, application value changes} on one storage directory with the real transport; after EVERY event the advertised TXT records and the store are compared with the reference model: device id and long-term key constant (a stored controller still verifies against the original accessory key), pairings = model set, c# +1 exactly when the structure differs from the previous run, sf=1 ⇔ no controller pairing. plus a sweep over 240 structurally different accessory sets (restart same ⇒ c# unchanged, other ⇒ +1, again ⇒ unchanged). (b) ALL 10^8 eight-digit codes and all ≈12 million strings of length ≤9 over {0,9,a,-,space,non-ASCII digit}: ValidatePin accepts exactly the non-trivial eight-digit codes and formats XXX-XX-XXX; for all 10^8 codes (category 5, IP flag) and for all 256 categories × 16 flag sets × 7 setup ids × 7 boundary codes an independent base-36 decoder recovers code, category, flags and setup id from XHMURI. states = restart histories executed The alphabet also has the removal of a pairing that is not stored. Plus, in a subprocess built with a scheduling point before EVERY statement of hc's packages (textual insertion through go build -overlay): every interleaving with at most 1 (thorough 2) preemptions of pairs of operations on disjoint objects — and, where the property is about served requests, of pairs of handlers on two verified connections of one accessory touching different characteristics — each side must observe exactly what it observes when the two run one after the other (module-level mutable state is what makes them differ).",
+		Rule:  "(a) every history of length 3 (quick) / 4 (thorough) after an initial start over {restart with the same accessories, restart with changed values only, restart with an added accessory, restart with another setup code, real pair-setup of a new controller, remove a pairing, add a new pairing and add an existing pairing again through /pairings on a verified connection, application value changes} on one storage directory with the real transport; after EVERY event the advertised TXT records and the store are compared with the reference model: device id and long-term key constant (a stored controller still verifies against the original accessory key), pairings = model set, c# +1 exactly when the structure differs from the previous run, sf=1 ⇔ no controller pairing. plus a sweep over 240 structurally different accessory sets (restart same ⇒ c# unchanged, other ⇒ +1, again ⇒ unchanged). (b) ALL 10^8 eight-digit codes and all ≈12 million strings of length ≤9 over {0,9,a,-,space,non-ASCII digit}: ValidatePin accepts exactly the non-trivial eight-digit codes and formats XXX-XX-XXX; for all 10^8 codes (category 5, IP flag) and for all 256 categories × 16 flag sets × 7 setup ids × 7 boundary codes an independent base-36 decoder recovers code, category, flags and setup id from XHMURI. states = restart histories executed The alphabet also has the removal of a pairing that is not stored; every history of length 2 over four symbols is repeated in storage directories named "Lamp [1]", "Bridge [attic" and "a*b?". Plus, in a subprocess built with a scheduling point before EVERY statement of hc's packages (textual insertion through go build -overlay): every interleaving with at most 1 (thorough 2) preemptions of pairs of operations on disjoint objects — and, where the property is about served requests, of pairs of handlers on two verified connections of one accessory touching different characteristics — each side must observe exactly what it observes when the two run one after the other (module-level mutable state is what makes them differ).",
 		Run:   c20Run,
 		Replay: func(c *fw.Ctx, raw json.RawMessage) {
 			var cc c20CodeCase
